@@ -11,7 +11,7 @@ struct FileCfg {
 
 static rc::Gen<long long> pick(std::vector<long long> v) { return g::elementOf(v); }
 static rc::Gen<long long> fdescLen() {
-    return g::weightedOneOf<long long>({{5, g::just<long long>(0)}, {4, sized(1, 40)}, {2, pick({126, 127, 128, 129, 200, 254, 255})}});
+    return g::weightedOneOf<long long>({{5, g::just<long long>(0)}, {4, sized(1, 40)}, {2, pick({126, 127, 128, 129, 200, 254, 255})}, {2, uni(1, 255)}});
 }
 static rc::Gen<long long> fdim() {
     return g::weightedOneOf<long long>({{10, pick({1, 2, 3})}, {3, g::just<long long>(0)}, {3, pick({4, 5, 8})}, {2, pick({16, 32, 100})}, {1, pick({255, 128, 127})}});
@@ -28,7 +28,8 @@ rc::Gen<std::vector<Op>> genFileOps(const FileCfg &c) {
     auto nsub = g::weightedOneOf<long long>({{4, g::just<long long>(1)}, {3, pick({2, 4, 10})}, {2, sized(1, ms)}});
     auto first = g::weightedOneOf<long long>({{5, g::just<long long>(1)}, {2, sized(2, 300)}, {1, pick({32767, 32768, 65000, 65535})}});
     auto ldelta = g::weightedOneOf<long long>({{7, g::just<long long>(0)}, {3, uni(-3, 3)}});
-    auto shape = op("fshape", {npts, nch, nsub, sized(0, mf), first, uni(0, 17), ldelta, ldelta, seedv()});
+    auto shape = op("fshape", {npts, nch, nsub, sized(0, mf), first, uni(0, 17), ldelta, ldelta, seedv(),
+                               c.layouts ? g::weightedOneOf<long long>({{9, g::just<long long>(0)}, {1, g::just<long long>(1)}, {1, g::just<long long>(2)}}) : g::just<long long>(0)});   // 1: no POINT:DATA_START, 2: zero frames although points are declared
     auto w16 = g::weightedOneOf<long long>({{3, pick({0, 1, 2, 10, 127, 128, 255, 256, 257, 12345, 32766, 32767, 32768, 32769, 65534, 65535})}, {2, uni(0, 65535)}});
     auto hdr = op("fhdr", {w16, w16, w16, g::weightedOneOf<long long>({{3, g::just<long long>(12345)}, {1, w16}}), g::weightedOneOf<long long>({{3, g::just<long long>(0)}, {2, uni(0, 18)}}), seedv(),
                            g::weightedOneOf<long long>({{3, g::just<long long>(0)}, {1, seedv()}})});
